@@ -483,6 +483,10 @@ def describe(c, exp, obs):
                  obs.get('disc_ndeg', obs.get('exc')), exp['tol'],
                  '' if obs.get('caller_object_unchanged', True) else
                  '; the coordinate object handed in was changed by the call: now %s' % (obs.get('caller_object_now'),)))
+    if k == 'capself':
+        return ('cap of polar angle %s deg (cm = %s) about its centre, %s point given as %s: specified cap_distance %s deg, '
+                'is_in_cap %s; observed %s' % (c['theta10'] / 10.0, exp['cmhalves'] / 2.0, c['rel'], c['conv'], exp['dist10'] / 10.0,
+                                               exp['inside'], obs))
     if k == 'stripe':
         return 'stripe %d: specified eta %s incl %s node %s, observed %s' % (
             c['stripe'], exp['eta10'] / 10.0, exp['incl10'] / 10.0, exp['node10'] / 10.0, obs)
@@ -512,6 +516,12 @@ def replay_cases(ctx, cases, geo):
             results.append((c, exp) + replay_stripe(c, exp))
         elif k == 'vecanchor':
             results.append((c, exp) + replay_vecanchor(c, exp))
+        elif k == 'capself':
+            geo.setdefault('capself', {})[(c['theta10'], c['rel'], c['sgn'], c['conv'])] = exp
+            m = len(geo['capself'])
+            ra = [((37 * m + 91 * j) % 1440) / 4.0 for j in range(160)]          # 160 centres of the quarter-degree grid
+            dec = [((53 * m + 17 * j) % 721) / 4.0 - 90.0 for j in range(160)]
+            results.append((c, exp) + replay_capself(c, exp, ra, dec))
         elif k == 'dist':
             results.append((c, exp) + replay_dist(c, exp, len(results)))
         else:
@@ -1298,12 +1308,118 @@ def falsify(rec, k):
             r['disc'] = 20000
     elif kind == 'form':
         r['disc'] = 20000
+    elif kind == 'self':
+        r[['nnan', 'wrong', 'disc'][k % 3]] = 20000 if k % 3 == 2 else 1
     return r
 
 
 def json_copy(x):
     import json
     return json.loads(json.dumps(x))
+
+
+# ---- a point against itself and against its antipode (SkyGeom.tla part 4c) ---------------------------
+def cap_self_eval(cm, rel, conv, ra, dec):
+    """cap_distance / is_in_cap of caps centred on (ra[j], dec[j]) (x = angles_to_x of the centre, as circle_cap
+    builds it) for the centre itself or its antipode, the point given as RA, Dec or as a unit vector.
+    Returns (distances, is_in_cap answers)."""
+    from pydl.pydlutils.mangle import cap_distance, is_in_cap
+    ra = np.asarray(ra, dtype=float)
+    dec = np.asarray(dec, dtype=float)
+    cen = np.stack([ra, dec], 1)
+    xs = a2x(cen, True)
+    if rel == 'coincident':
+        ang = cen
+        vec = xs
+    else:
+        ang = np.stack([(ra + 180.0) % 360.0, -dec], 1)
+        vec = -xs if rel == 'antipode-negated' else a2x(ang, True)
+    pts = ang if conv == 'radec' else vec
+    d = np.empty(len(ra))
+    ins = np.empty(len(ra), dtype=bool)
+    with np.errstate(all='ignore'):
+        for j in range(len(ra)):
+            d[j] = cap_distance(xs[j], cm, pts[j:j + 1])[0]
+            ins[j] = bool(is_in_cap(xs[j], cm, pts[j:j + 1])[0])
+    return d, ins
+
+
+def replay_capself(c, exp, ra, dec):
+    cm = exp['cmhalves'] / 2.0
+    try:
+        d, ins = cap_self_eval(cm, c['rel'], c['conv'], ra, dec)
+    except Exception as ex:
+        return False, {'exc': repr(ex)}, None
+    want = exp['dist10'] / 10.0
+    bad = [j for j in range(len(ra)) if d[j] != d[j] or ndeg(d[j] - want) > exp['tol'] or bool(ins[j]) != exp['inside']]
+    obs = {'centres': len(ra), 'failing': len(bad)}
+    if bad:
+        j = bad[0]
+        obs.update(centre=[float(ra[j]), float(dec[j])], cap_distance=float(d[j]), is_in_cap=bool(ins[j]))
+    return not bad, obs, None
+
+
+def grid_rows(rng, nrows):
+    """declination rows (index j: Dec = j/4 - 90) of the quarter-degree grid: poles, equator, seeded others"""
+    rows = [0, 720, 360] + rng.sample([j for j in range(1, 720) if j != 360], nrows - 3)
+    return sorted(rows)
+
+
+def self_records(rng, geo, nrows, gc_rows_per_batch):
+    """dense sweeps over the quarter-degree grid of centres: cap_distance / is_in_cap of the centre and of its
+    antipode (both conventions), gcirc of the point itself and of its antipode (three conventions)"""
+    recs, info = [], []
+    cases = geo['capself']                        # (theta10, rel, sgn, conv) -> what TLC specifies
+    combos = sorted({(t, sg) for (t, _, sg, _) in cases})
+    ra_all = np.arange(1440) / 4.0
+    nb = 0
+    for j in grid_rows(rng, nrows):
+        dec_row = np.full(1440, j / 4.0 - 90.0)
+        for lo in range(0, 2880, 72):
+            if lo < 1440:
+                ra, dec = ra_all[lo:lo + 72], dec_row[lo:lo + 72]
+            else:           # as many centres off the grid (seeded random positions on the sphere)
+                ra = np.array([rng.uniform(0, 360) for _ in range(72)])
+                dec = np.array([math.degrees(math.asin(rng.uniform(-1, 1))) for _ in range(72)])
+            t, sg = combos[nb % len(combos)]
+            nb += 1
+            for conv in ('radec', 'vector'):
+                for rel in ('coincident', 'antipode', 'antipode-negated'):
+                    e = cases.get((t, rel, sg, conv))
+                    if e is None:
+                        continue
+                    d, ins = cap_self_eval(e['cmhalves'] / 2.0, rel, conv, ra, dec)
+                    nan = np.isnan(d)
+                    disc = max([ndeg(x - e['dist10'] / 10.0) for x in d[~nan]] or [0])
+                    recs.append({'kind': 'self', 'fn': 'cap_distance', 'conv': conv, 'rel': rel, 'n': len(ra), 'nnan': int(nan.sum()),
+                                 'disc': disc, 'wrong': int((ins != e['inside']).sum())})
+                    k = int(np.argmax(nan)) if nan.any() else int(np.argmax(np.abs(d - e['dist10'] / 10.0)))
+                    info.append({'probe': 'self-cap', 'theta10': t, 'sgn': sg, 'conv': conv, 'rel': rel, 'ra': ra.tolist(),
+                                 'dec': dec.tolist(), 'worst': [float(ra[k]), float(dec[k]), float(d[k])]})
+    sep = {rel: e['sep10'] / 10.0 for (_, rel, _, _), e in cases.items()}
+    for j0 in range(0, 721, gc_rows_per_batch):
+        js = np.arange(j0, min(721, j0 + gc_rows_per_batch))
+        ra = np.tile(ra_all, len(js))
+        dec = np.repeat(js / 4.0 - 90.0, 1440)
+        for rel in ('coincident', 'antipode'):
+            ra2, dec2 = (ra, dec) if rel == 'coincident' else ((ra + 180.0) % 360.0, -dec)
+            for u in UNITS:
+                if u == 2:
+                    a = (ra, dec, ra2, dec2)
+                elif u == 1:
+                    a = (ra / 15.0, dec, ra2 / 15.0, dec2)
+                else:
+                    a = tuple(np.deg2rad(v) for v in (ra, dec, ra2, dec2))
+                g = np.asarray(call_gcirc(a[0], a[1], a[2], a[3], u), dtype=float)
+                gd = g * (float(R2D) if u == 0 else 1 / 3600.0)
+                nan = np.isnan(gd)
+                dv = np.abs(gd - sep[rel])
+                worst = int(np.argmax(nan)) if nan.any() else int(np.argmax(dv))
+                recs.append({'kind': 'self', 'fn': 'gcirc', 'conv': 'u%d' % u, 'rel': rel, 'n': len(ra), 'nnan': int(nan.sum()),
+                             'disc': ndeg(np.max(dv[~nan])) if (~nan).any() else 0, 'wrong': 0})
+                info.append({'probe': 'self-gcirc', 'units': u, 'rel': rel, 'rows': [int(js[0]), int(js[-1])],
+                             'worst': [float(a[0][worst]), float(a[1][worst]), float(a[2][worst]), float(a[3][worst]), float(g[worst])]})
+    return recs, info
 
 
 def judge(ctx, recs, minper, label):
@@ -1354,7 +1470,9 @@ def run(ctx):
                 '(array-valued and scalar, SkyCoord and bare frames) are reused across stripes / repeated transforms and '
                 'compared with the coordinates they were built from; CallerObjectUnchanged = argument arrays bit-identical '
                 'after the call; ArrayEqualsScalars = the same positions as arrays of shapes (n,), (3,5), (3,3), (2,5), (5,3), '
-                '(2,3,4), (3,2,2), (1,7), (7,1) (gcirc: broadcast pairs of shapes) against one-at-a-time calls, counted per shape class')
+                '(2,3,4), (3,2,2), (1,7), (7,1) (gcirc: broadcast pairs of shapes) against one-at-a-time calls, counted per shape class; '
+                'self records = batches of centres of the quarter-degree grid: the point itself and its antipode ((RA+180, -Dec) and the '
+                'negated vector) through cap_distance / is_in_cap (RA,Dec and unit-vector points) and gcirc (three conventions)')
     ctx.assumptions = [
         'IEEE-754 doubles; numpy longdouble is the x87 80-bit format (64-bit mantissa) - checked at start',
         'exact families use coordinates b/8 + m/2^k that are exactly representable, so the separation TLC computes is the '
@@ -1366,6 +1484,8 @@ def run(ctx):
         'observation only, outside the statement: x_to_angles divides z by the SQUARED norm (points**2).sum(1), so for non-unit '
         'vectors the polar angle is wrong ([1,2,2] gives 77.16 instead of 48.19 deg); the statement is about angles <-> UNIT '
         'vectors, for which r = r^2 = 1, so only (rounded) unit vectors are submitted and nothing is demanded of non-unit ones',
+        '"the distance is never NaN, also for coincident and antipodal points" is read to cover mangle.cap_distance (the distance '
+        'computed from the angles <-> unit-vector conversions of the same sentence) and is_in_cap through it, as well as gcirc',
         'stripe_to_eta / stripe_to_incl are given scalar stripes only (the unchanged code does not take arrays; not in the statement)']
     if np.finfo(L).nmant < 63:
         raise core.MachineryError('numpy longdouble has only %d mantissa bits' % np.finfo(L).nmant)
@@ -1392,6 +1512,8 @@ def run(ctx):
     mrecs, minfo = mrecs + shrecs, minfo + shinfo
     frecs, finfo = form_records(rng, 6 if ctx.quick else 52, sorted(rng.sample(range(91), 12)) if ctx.quick else list(range(91)))
     mrecs, minfo = mrecs + frecs, minfo + finfo
+    selfrecs, selfinfo = self_records(rng, geo, 10 if ctx.quick else 100, 8 if ctx.quick else 1)
+    mrecs, minfo = mrecs + selfrecs, minfo + selfinfo
     recs = grecs + srecs + mrecs + vrecs
     verdict = judge(ctx, recs, 10 if ctx.quick else 100, ctx.tier)
     ok0, why0, _, _ = verdict[0]
@@ -1508,6 +1630,21 @@ def _reprobe(inf, old):
         return last
     if k == 'form':
         return form_probe(dict(inf))
+    if k == 'self-cap':
+        from fractions import Fraction as F
+        cm = inf['sgn'] * {600: 1, 900: 2, 1200: 3}[inf['theta10']] / 2.0
+        d, ins = cap_self_eval(cm, inf['rel'], inf['conv'], inf['ra'], inf['dec'])
+        want = inf['sgn'] * (inf['theta10'] / 10.0 - (0.0 if inf['rel'] == 'coincident' else 180.0))
+        nan = np.isnan(d)
+        rec.update(nnan=int(nan.sum()), disc=max([ndeg(x - want) for x in d[~nan]] or [0]), wrong=int((ins != (want >= 0)).sum()))
+        return rec
+    if k == 'self-gcirc':
+        w = inf['worst']
+        g = float(call_gcirc(np.array([w[0]]), np.array([w[1]]), np.array([w[2]]), np.array([w[3]]), inf['units'])[0])
+        gd = g * (float(R2D) if inf['units'] == 0 else 1 / 3600.0)
+        want = 0.0 if inf['rel'] == 'coincident' else 180.0
+        rec.update(n=1440, nnan=int(gd != gd), disc=0 if gd != gd else ndeg(gd - want))
+        return rec
     if k == 'shape-transform':
         return transform_shape_probe(inf['fn'], inf['stripe'], inf['which'], tuple(inf['shape']), inf['lon'], inf['lat'])[0]
     if k == 'shape-gcirc':
